@@ -35,8 +35,9 @@ func (s *session) writeResponse(resp rhp2.ProtocolObject, timeout time.Duration)
 }
 
 // ContractRevisable returns an error if a contract is not locked or can't be
-// revised. A contract is revisable if the revision number is not the max uint64
-// value and it is not close to the proof window.
+// revised because its revision number is the max uint64 value. Whether the
+// contract is too close to its proof window is checked by the contract manager
+// when the lock is acquired and again when a revision is persisted.
 func (s *session) ContractRevisable() error {
 	switch {
 	case s.contract.Revision.ParentID == (types.FileContractID{}):
